@@ -585,6 +585,80 @@ async def examine_workflow(ctx, wf, sched, draining: bool, exists, where: dict, 
         ctx.stats.count("attributed-CYCLIC", summary.cyclic.nblocked)
     if do_oracle:
         check_analysis(ctx, sn, thr, sn.avail, summary, totals, t, where, legal)
+        check_printed_report(ctx, rep.events, summary, where)
+
+
+def check_printed_report(ctx, events, summary, where):
+    """The printed end-of-build summary (what the user reads) against the `PendingSummary` it was made
+    from: every shown cause appears on its page with its count, and the printed counts add up to the
+    number in the headline (exactly when no remainder row hides a lower bound)."""
+    import re as _re
+
+    shown = [(text, pages or []) for tag, text, pages in events
+             if tag == "WARNING" and text.endswith("step(s) remained pending.")]
+
+    def report(sig, what, **detail):
+        ctx.finding(Finding(PID, sig, what, {**where, **detail,
+                                              "printed": [[t, [list(p) for p in pg]] for t, pg in shown]}))
+
+    if summary.ntotal == 0 or not shown:
+        return
+    ctx.stats.count("printed-reports-checked")
+    text, pages = shown[-1]
+    title_n = int(text.split()[0])
+    if title_n != summary.ntotal:
+        report("printed-total-differs", f"the headline says {title_n} pending steps, the summary has {summary.ntotal}")
+    by_title = {}
+    for title, body in pages:
+        by_title.setdefault(title, []).extend(body.split("\n"))
+    printed_sum = 0
+    lower_bound = False
+
+    def count_of(line):
+        m = _re.search(r"(≥ )?(\d+) step\(s\)$", line)
+        return (None, False) if m is None else (int(m.group(2)), m.group(1) is not None)
+
+    for title, rows, nhidden, key in (("Unavailable inputs", summary.inputs, summary.ninputs_hidden, lambda r: r.path),
+                                      ("Insufficient resources", summary.resources, summary.nresources_hidden,
+                                       lambda r: r.name + ":")):
+        lines = by_title.get(title, [])
+        if (rows or nhidden) and not lines:
+            report("printed-report-omits-cause", f"the summary has {len(rows)} row(s) for '{title}' "
+                   f"({sum(r.nblocked for r in rows)} steps) but the printed report has no such page", page=title)
+            continue
+        for r in rows:
+            hit = [ln for ln in lines if key(r) in ln and count_of(ln) == (r.nblocked, False)]
+            if not hit:
+                report("printed-report-omits-cause", f"'{title}' does not show {key(r)!r} with {r.nblocked} step(s)",
+                       page=title, row=key(r))
+        for ln in lines:
+            n, lb = count_of(ln)
+            if n is not None:
+                printed_sum += n
+                lower_bound |= lb
+            elif "... and" in ln:
+                lower_bound = True
+    other = by_title.get("Other reasons", [])
+    for name in ("failed", "cyclic", "deferred", "other", "runnable"):
+        b = getattr(summary, name)
+        if b.nblocked and not any(ln.startswith(f"{b.nblocked} step(s)") for ln in other):
+            report("printed-report-omits-cause", f"'Other reasons' has no line for the {b.nblocked} {name} step(s)",
+                   page="Other reasons", bucket=name)
+    for ln in other:
+        m = _re.match(r"(\d+) step\(s\)", ln)
+        if m:
+            printed_sum += int(m.group(1))
+    if printed_sum > title_n:
+        # The rows of the two tables show *exact* counts ("pending steps this file transitively blocks",
+        # verified against their definition by `check_analysis`), so a step behind several dead-end
+        # inputs or resources is counted in each of their rows: the partition into exactly one cause
+        # exists only in the attribution that is not printed (`attributed_totals`).
+        report("summary-counts-overlap:step-behind-several-roots",
+               f"the printed causes account for {printed_sum} step(s), the headline says {title_n}: the rows count a step "
+               "once per dead-end input / unsatisfiable resource that blocks it")
+    elif not lower_bound and printed_sum != title_n:
+        report("printed-counts-do-not-add-up", f"the printed causes account for {printed_sum} step(s), the headline "
+               f"says {title_n}: some pending steps appear under no cause")
 
 
 def check_rc_against_tables(ctx, sn, thr, draining, rc, gw, ge, mt, md, invalid_target, where, needs=None):
